@@ -82,7 +82,11 @@ Call == /\ Is("call")
                ov == OthersPending(t) # {} IN
            pend' = [u \in Threads |->
                       IF u = t THEN [op |-> E.op, h |-> E.h, v |-> E.v, new |-> E.new, hk |-> E.hk,
-                                     api |-> E.api, lin |-> FALSE, res |-> "", rv |-> -1, ov |-> ov]
+                                     api |-> E.api, lin |-> FALSE, res |-> "", rv |-> -1, ov |-> ov,
+                                     \* was the stream already at its end when the call began?
+                                     endAtCall |-> (E.op \in {"recv", "brecv"} /\ IsRecv(q, E.h)
+                                                    /\ RecvRes(q, E.h) = "Disc"),
+                                     noRAtCall |-> q.noR]
                       ELSE IF Pending(u) THEN [pend[u] EXCEPT !.ov = TRUE] ELSE pend[u]]
         /\ UNCHANGED <<q, led, viol>>
         /\ l' = l + 1
@@ -125,7 +129,10 @@ Bad(qq, c, r, v, same) ==
          LET mr == SendRes(qq) IN
          (IF ~same THEN {"C05"} ELSE {}) \cup
          (CASE r = "Ok"   -> IF mr = "Disc" THEN {"C13"} ELSE IF mr = "Full" THEN {"C03"} ELSE {}
-            [] r = "Full" -> IF mr = "Full" THEN {} ELSE IF mr = "Disc" THEN {"C13"}
+            \* the last receiver left while this overlapped send was under way: Full may still be the answer of
+            \* a moment inside the call; only a send that began with no receiver must say Disconnected
+            [] r = "Full" -> IF mr = "Full" THEN {}
+                             ELSE IF mr = "Disc" THEN (IF c.ov /\ ~c.noRAtCall THEN {} ELSE {"C13"})
                              ELSE IF c.ov THEN {} ELSE {"C06"}
             \* the no-reader flag is raised inside the drop call of the last receiver, after its stream has
             \* stopped counting: a send overlapping that call may already see it
@@ -137,7 +144,10 @@ Bad(qq, c, r, v, same) ==
            \* a stream that reports Empty (not overlapped) or the end while an accepted value is still due to it
            \* has lost that value: joint ids with C01
            [] r = "Empty" -> IF c.op = "brecv" THEN {"C09"}
-                             ELSE IF mr = "Empty" THEN {} ELSE IF mr = "Disc" THEN {"C07"}
+                             ELSE IF mr = "Empty" THEN {}
+                             \* the end was reached while this overlapped call was under way: Empty is still the
+                             \* answer of a moment inside the call; only a call that began at the end must say so
+                             ELSE IF mr = "Disc" THEN (IF c.ov /\ ~c.endAtCall THEN {} ELSE {"C07"})
                              ELSE IF c.ov THEN {} ELSE {"C01C06"}
            [] r = "Disc"  -> IF mr = "Disc" THEN {} ELSE IF mr = "Val" THEN {"C01C07"} ELSE {"C07"}
            [] r = "End"   -> IF mr \in {"Empty", "Disc"} THEN {} ELSE IF c.ov THEN {} ELSE {"C01C06"}
